@@ -587,8 +587,11 @@ func StrLen(a *Term) *Term {
 	}
 	t := app(SInt, "str.len", a)
 	t.lo = bigI(0)
+	t.hi = strMaxLen // platform fact, asserted for every symbolic string by assumeStr
 	return t
 }
+
+var strMaxLen = new(big.Int).Lsh(big.NewInt(1), 48)
 
 func StrConcat(a, b *Term) *Term {
 	if a.slit != nil && b.slit != nil {
